@@ -100,6 +100,22 @@ static json DumpEntries(BuildLog& bl) {
 //  {"op":"load_dump"}  fresh BuildLog::Load of the file: entries + status + warning
 //  {"op":"recompact","dead":[..]}  {"op":"restat","outs":[hex..],"mtimes":{hexpath: mtime}}
 //  {"op":"tear_scan","from":a,"to":b}  for every n in [a,b]: copy of the file truncated to n, Load, dump (compact)
+// bounds the work and the size of the answer of a tear scan: offsets x file size stays below ~48 MB by thinning the
+// middle (both ends, where headers and the most recent records live, keep their share)
+static void ThinOffsets(vector<int64_t>* offs, size_t file_size) {
+  const double budget = 48e6;
+  if (offs->empty() || (double)offs->size() * (double)(file_size + 1) <= budget) return;
+  size_t keep = (size_t)(budget / (double)(file_size + 1));
+  if (keep < 120) keep = 120;
+  if (keep >= offs->size()) return;
+  size_t third = keep / 3;
+  vector<int64_t> out(offs->begin(), offs->begin() + third);
+  size_t mid_lo = third, mid_hi = offs->size() - third;
+  for (size_t i = 0; i < third; ++i) out.push_back((*offs)[mid_lo + (mid_hi - mid_lo) * i / third]);
+  out.insert(out.end(), offs->end() - third, offs->end());
+  offs->swap(out);
+}
+
 static void HandleBuildLog(const json& in) {
   string dir = in["dir"]; string path = dir + "/.ninja_log";
   BuildLog* bl = nullptr; SetUser user;
@@ -181,6 +197,7 @@ static void HandleBuildLog(const json& in) {
         for (int64_t n = 600; n + 600 < (int64_t)all.size(); n += 997) offs.push_back(n);
         for (int64_t n = (int64_t)all.size() - 600; n <= (int64_t)all.size(); ++n) offs.push_back(n);
       }
+      ThinOffsets(&offs, all.size());
       for (int64_t n : offs) {
         if (n < 0 || n > (int64_t)all.size()) continue;
         WriteAll(tmp, all.substr(0, n));
@@ -327,6 +344,7 @@ static void HandleDepsLog(const json& in) {
         for (int64_t n = (int64_t)all.size() - 500; n <= (int64_t)all.size(); ++n) offs.push_back(n);
       }
       string tail = FromHex(op.value("tail", string("")));
+      ThinOffsets(&offs, all.size());
       for (int64_t n : offs) {
         if (n < 0 || n > (int64_t)all.size()) continue;
         WriteAll(tmp, all.substr(0, n) + tail);
